@@ -148,7 +148,7 @@ const EXTRA_TOKENS: &[&str] = &[
 	"\"abc", "'x", "|||", "|||\n t", "|||\n  t\n |||", "@\"", "@'a''b'", "1.", "1e", "1e+", "0x", "0x1F", "/*", "*/", "/* c */", "// c\n", "# c\n", "\u{0}",
 	"\u{feff}", "é", "😀", "\\", "\"\\uD800\"", "\"\\u00\"", "'\\x'", "\"\\u{1}\"", "1e999", "9999999999999999999999", ".5", "1..2", "e", "_", "a.b.c", "[::]", "[1:2:3]",
 	"{[x]:1}", "+:::", "?.", "??", "\r\n", "\t", "std", "std.length", "std.extVar(\"x\")", "import \"missing\"", "importstr 'a'", "importbin \"b\"", "$.a", "self.a", "super.a",
-	"in super", "function(x=1)", "tailstrict", "for x in [1]", "if true", "assert false", "error 1", "local a = a;", "a.b(c)(d)", "-", "!", "~", "+",
+	"in super", "function(x=1)", "tailstrict", "for x in [1]", "if true", "assert false", "error 1", "local a = a;", "a.b(c)(d)", "-", "!", "~", "+", "f(x=", "f(1, y =", "function(a=", "{ a:", "local x =", "[1,", "x for",
 ];
 
 /// a generated valid program that the reference interpreter finishes within its fuel (it is used only as a cost bound:
@@ -163,7 +163,14 @@ fn bounded_program(src: &mut Src) -> String {
 }
 
 fn gen_text(src: &mut Src) -> (String, &'static str) {
-	match src.weighted(&[5, 4, 2, 2]) {
+	match src.weighted(&[5, 4, 2, 2, 3]) {
+		4 => {
+			// a valid program cut off after one of its tokens (every prefix is a possible end of input)
+			let text = bounded_program(src);
+			let toks: Vec<String> = c06::lex_tokens(&text).into_iter().map(|t| t.1).collect();
+			let keep = if toks.is_empty() { 0 } else { src.below(toks.len()) };
+			(toks[..keep].join(" "), "truncated-program")
+		}
 		0 => {
 			let n = src.range(1, 40) as usize;
 			let mut toks = vec![];
@@ -337,7 +344,7 @@ const PRELUDE: &str = "local big = std.repeat('a', 70000), odd = 'x' + std.repea
 const ARGS: &[&str] = &[
 	"null", "true", "false", "0", "-0", "1", "-1", "0.5", "-0.5", "2", "3", "7", "255", "256", "65535", "65536", "2147483647", "2147483648", "-2147483649", "4294967296",
 	"9007199254740991", "9007199254740992", "9007199254740994", "1e308", "-1e308", "5e-324", "1e-7", "1e15", "''", "'a'", "'ab'", "'é'", "'😀'", "'a\\u0000b'", "'%'", "'%('",
-	"'%5.3d'", "'1'", "'-'", "'0x'", "'ff'", "'{\"a\": 1}'", "'a: 1'", "'[1, '", "'\\n'", "' '", "'a,b'", "big", "odd", "[odd]", "{ a: odd, [odd]: big }", "[]", "[1]", "[1, 'a']", "[[]]", "[null]", "[3, 1, 2]",
+	"'%5.3d'", "'1'", "'-'", "'0x'", "'ff'", "'{\"a\": 1}'", "'a: 1'", "'[1, '", "'\\n'", "' '", "'a,b'", "big", "odd", "[odd]", "{ a: odd, [odd]: big }", "{ a: [{ b: 1 }, 2] }", "{ a: [2, { b: 1 }] }", "{ a: [{ b: 1 }, error 'e'] }", "[{ a: 1 }, 2]", "[]", "[1]", "[1, 'a']", "[[]]", "[null]", "[3, 1, 2]",
 	"['b', 'a']", "[[1, 2], [3]]", "[{ a: 1 }, { a: 2 }]", "arr1001", "std.reverse([1, 2, 3])", "[1, 2, 3, 4, 5][1:3]", "std.repeat([1, 2], 3)", "std.map(function(x) x, [1, 2])",
 	"std.encodeUTF8('aé')", "std.makeArray(3, function(i) i)", "[1, error 'elem']", "[1, 2] + [3]", "{}", "{ a: 1 }", "o2", "{ a: error 'field' }", "{ assert false : 'inv', a: 1 }",
 	"{ a: 1 } + { b: 2 }", "std.objectRemoveKey({ a: 1, b: 2 }, 'a')", "{ a: { b: { c: 1 } } }", "{ a: [1, { b: null }] }", "function() 1", "function(x) x", "function(x, y) x",
